@@ -42,7 +42,8 @@ pub fn scan_sites() -> Vec<String> {
         }
     }
     let mut out = vec![];
-    walk(std::path::Path::new("/repo/src"), &mut out);
+    let repo = std::env::var("CVX_REPO").unwrap_or_else(|_| "/repo".to_string());
+    walk(&std::path::Path::new(&repo).join("src"), &mut out);
     out
 }
 
@@ -57,7 +58,7 @@ pub fn site_of_backtrace(bt: &str) -> Option<String> {
         }
         if after_unwrap {
             if let Some(rest) = l.strip_prefix("at ") {
-                if rest.contains("/repo/src/") && !rest.contains("sat/sat_solver.rs") {
+                if rest.contains("/src/") && (rest.contains("/repo") || rest.contains("crustabri") || rest.contains(&std::env::var("CVX_REPO").unwrap_or_default())) && !rest.contains("sat/sat_solver.rs") && !rest.contains("/rustc/") && !rest.contains("harness/src") {
                     // strip the column
                     let mut parts = rest.rsplitn(2, ':');
                     let _col = parts.next();
